@@ -25,7 +25,7 @@ pub enum Broken {
     DeletedBetween,
     MixedCsum,
     TwentyFragments,
-    /// one ordinal byte has bit 5 set (33..63: no such fragment exists)
+    /// one ordinal byte has bit 5 and/or the reserved bit 7 set (no such fragment exists)
     HighOrdinal,
 }
 
@@ -266,7 +266,9 @@ pub fn build_items(items: &[Item], fat32: bool, lfn_cap: usize) -> (Vec<Slot>, V
                     }
                     Broken::HighOrdinal => {
                         let k = (frags[0][1] as usize ^ name[1] as usize) % n;
-                        run[k].0 |= 0x20;
+                        // bit 5 (ordinals 33..63), the reserved bit 7, or both
+                        let bits = [0x20u8, 0x80, 0xA0][(frags[0][2] as usize ^ name[2] as usize) % 3];
+                        run[k].0 |= if run[k].0 | bits == 0xE5 { 0x80 } else { bits };
                     }
                     Broken::MixedCsum => {
                         // one fragment of the run carries a different checksum: whichever it is, the
